@@ -26,7 +26,8 @@ DEFAULT = dict(
     p_tick_back=0.0, mutation_ops=['write', 'write', 'rm', 'rm', 'mkdir',
                                    'touch'],
     p_refuse_step=0.0, n_muts=(1, 3), p_q_near_output=0.5, p_plant=0.0, p_double_clean=0.0,
-    p_plain_build=0.0,
+    p_plain_build=0.0, p_swap_groups=0.0, p_fail_after_nested=0.0,
+    p_switch_root=0.3, p_anc_target=0.0,
 )
 
 # JSON values for arguments / return values / versions (C07, C16)
@@ -185,6 +186,13 @@ class Gen:
                     continue
                 fi, fid = rng.choice(cands)
                 rel = rng.choice(ctx['O'])
+                if self.chance('p_anc_target'):
+                    # a target above / below another target of the same
+                    # program (meaningful when one of the two calls fails)
+                    if '/' in rel and rng.random() < 0.5:
+                        rel = rel.rsplit('/', 1)[0]
+                    elif rel.count('/') < 2:
+                        rel = rel + '/' + rng.choice(NAMES[:2])
                 args, kwargs = self.small_args()
                 cmp = 'HASH' if self.chance('p_hash') else 'METADATA'
                 st = ['bf', rel, fid, args, kwargs, cmp,
@@ -239,6 +247,9 @@ class Gen:
                 elif r < p['p_write_unlink'] + p['p_write_twice']:
                     mode = 'twice'
                 body.insert(rng.randint(0, len(body)), ['w', mode])
+        if is_file and self.chance('p_fail_after_nested') and any(
+                st[0] in ('bf', 'sb') for st in body):
+            body.append(['raise', rng.choice(USER_EXC)])
         if self.chance('p_nonjson'):
             body.append(['ret', 'nonjson'])
         elif self.chance('p_ret_val'):
@@ -261,8 +272,26 @@ class Gen:
         groups = []
         ng = self.ri('n_groups')
         idx = 0
+        prev_O = None
         for g in range(ng):
             O = self.antichain(U, rng.randint(1, 4))
+            if prev_O and self.chance('p_swap_groups'):
+                # outputs of this group sit above / below the other group's:
+                # file <-> directory swaps of outputs between builds
+                O = []
+                for o in prev_O:
+                    r = rng.random()
+                    if r < 0.45:
+                        c = o + '/' + rng.choice(NAMES[:2])
+                    elif r < 0.75 and '/' in o:
+                        c = o.rsplit('/', 1)[0]
+                    else:
+                        c = o
+                    if not any(c == x or c.startswith(x + '/') or
+                               x.startswith(c + '/') for x in O):
+                        O.append(c)
+                U = sorted(set(U) | set(O))
+            prev_O = O
             nf = self.ri('n_file_funcs')
             ns = self.ri('n_sub_funcs')
             order = ['file'] * nf + ['sub'] * ns
@@ -298,6 +327,7 @@ class Gen:
             roots.append(root)
             groups.append({'O': O, 'files': [f for _, f in files],
                            'subs': [f for _, f in subs]})
+        self.U_final = U
         return funcs, roots, groups
 
     # ------------------------------------------------------------------
@@ -379,7 +409,7 @@ class Gen:
                               'how': rng.choice(REFUSALS),
                               'arg': rng.randrange(1 << 16)})
             else:
-                if len(roots) > 1 and rng.random() < 0.3:
+                if len(roots) > 1 and self.chance('p_switch_root'):
                     root = rng.randrange(len(roots))
                 versions = self.gen_versions(funcs, versions)
                 step = {'op': 'build', 'root': root,
@@ -403,6 +433,7 @@ class Gen:
         rng = self.rng
         U = self.gen_universe()
         funcs, roots, groups = self.gen_program(U)
+        U = self.U_final
         sc = {
             'profile': profile, 'seed': self.seed,
             'config': {
